@@ -429,6 +429,20 @@ func (c *checker) manifestScenario(i int) {
 	}
 }
 
+// stutteringReader returns (0, nil) on every other call.
+type stutteringReader struct {
+	r io.Reader
+	n int
+}
+
+func (s *stutteringReader) Read(p []byte) (int, error) {
+	s.n++
+	if s.n%2 == 1 {
+		return 0, nil
+	}
+	return s.r.Read(p)
+}
+
 // badPush: a push whose declared digest or size disagrees with its content must fail and leave nothing behind.
 func (c *checker) badPush(i int) {
 	run := c.run
@@ -513,14 +527,21 @@ func (c *checker) badPush(i int) {
 		d.Size = []int64{-1, -2, math.MinInt64}[i/len(kinds)%3]
 	}
 	// half the time from a reader that is nothing but a reader (no length to ask for)
-	opaque := (i/len(kinds))%2 == 1
+	// ... and sometimes from one that stutters: a Read may return no bytes and no error before data arrives
+	// (pipes after an empty write, some network connections), which is within the io.Reader contract
+	readerKind := rng.IntN(3)
+	opaque := readerKind == 1
+	stutter := readerKind == 2
 	mkReader := func(b []byte) io.Reader {
+		if stutter {
+			return &stutteringReader{r: bytes.NewReader(b)}
+		}
 		if opaque {
 			return struct{ io.Reader }{bytes.NewReader(b)}
 		}
 		return bytes.NewReader(b)
 	}
-	w := map[string]any{"stack": c.kind, "bad_push": kind, "declared_digest": declared, "declared_size": d.Size, "body_len": len(body), "opaque_reader": opaque}
+	w := map[string]any{"stack": c.kind, "bad_push": kind, "declared_digest": declared, "declared_size": d.Size, "body_len": len(body), "opaque_reader": opaque, "stuttering_reader": stutter}
 	run.Eval(1)
 	var perr error
 	ok := run.Case("total/bad-push/"+c.kind, w, func() {
@@ -541,7 +562,7 @@ func (c *checker) badPush(i int) {
 		return
 	}
 	run.Count("bad_pushes", 1)
-	run.Distinct(fmt.Sprintf("bad-push/%s/%s/opaque-reader=%v", c.kind, kind, opaque))
+	run.Distinct(fmt.Sprintf("bad-push/%s/%s/opaque-reader=%v/stuttering=%v", c.kind, kind, opaque, stutter))
 	if perr == nil {
 		run.Violation(fmt.Sprintf("bad-push-accepted/%s/%s", c.kind, kind), fmt.Sprintf("a push with %s was accepted", kind), w)
 	}
